@@ -601,6 +601,20 @@ Definition NewRawSuite (fuel0 : nat) (raw : bytes) : res ((option suite_cfg) * (
   else
   Val ((Some cfg), None).
 
+Definition SuiteConfig_String (cfg : suite_cfg) : res bytes :=
+  Val (sc_raw cfg).
+
+Definition RawSuite_String (r : suite_cfg) : res bytes :=
+  Val (sc_raw r).
+
+Definition MustRawSuite (fuel0 : nat) (raw : bytes) : res suite_cfg :=
+  do t1 <- NewRawSuite fuel0 raw;
+  let '(s, err_) := t1 in
+  if (is_some err_) then (Pnc (* panic(...) *) )
+  else
+  do t2 <- deref s;
+  Val t2.
+
 Definition NewSuite (cfg : suite_cfg) : res ((option suite_cfg) * (option err)) :=
   do t1 <- SuiteConfig_Validate cfg;
   let err_ := t1 in
